@@ -294,14 +294,18 @@ class Axis(GetSetDelAttrMixin, AbstractAxis):
         elif other.values.size == 0:
             return self
 
+        def _direction(a):
+            " +1 increasing, -1 decreasing, 0 undetermined (single label) "
+            return 0 if a.size < 2 else (1 if a[-1] >= a[0] else -1)
+
         def _same_slope(a, b):
-            " both decreasing or both increasing "
-            return (a[-1]>=a[0])==(b[-1]>=b[0])
+            " both decreasing or both increasing (a single label goes with either) "
+            return _direction(a)*_direction(b) >= 0
 
         if consistent_kinds and self.is_monotonic() and other.is_monotonic() and _same_slope(self.values, other.values):
             # join two sorted axes
             joined = np.union1d(self.values, other.values)
-            if self.values[-1] <= self.values[0]: # decreasing !
+            if _direction(self.values) + _direction(other.values) < 0: # decreasing !
                 joined = joined[::-1]
 
         else:
